@@ -9,7 +9,7 @@ CONF = dict(
              'blech32 is the model of C15; the external codecs are executable re-implementations (Model/AddrCodecs.v: btcutil base58check, bech32) used only to run the model in the differential check, and compared with the real libraries there'],
     assumptions=['ext_laws (btcutil, outside the repository): base58 CheckDecode(CheckEncode(d,v)) = (d,v) and CheckEncode(CheckDecode s) = s; base58check strings of the nine version bytes with 20/54-byte payloads never begin with a segwit prefix; '
                  'bech32 Encode/EncodeM produce lower(hrp) ++ "1" ++ alphabet characters, are total on 5-bit data, DecodeGeneric returns hrp, data and the constant used, and Encode of what DecodeGeneric returned is the lower-case spelling; bech32.ConvertBits 8->5 (padded) then 5->8 is the identity and 5->8 accepts only images of 8->5',
-                 'regroup_law / regroup_back_law: the same two regrouping laws for the repository\'s own blech32.ConvertBits are premises of the blech32 theorems (not yet proved over the faithful bit-twiddling model; compared with the implementation on thousands of inputs by C15\'s and C14\'s K)'],
+                 '(none about the repository\'s own code: regroup_law and regroup_back_law of blech32.ConvertBits, formerly premises, are proved for all byte lists in Proofs/Regroup.v via a bit-list specification; the only finite step is the single-byte relation between the uint8 accumulator loop and the specification, 7936 + 8160 cases checked in the kernel)'],
     explanation='theorems (for all three networks, all payloads, all 33-byte keys): base58 / confidential base58 decode(encode) and encode(decode) with the prefix|key|hash layout; bech32 and blech32 forms encode, decode back to the same prefix/version/key/program, are attributed to exactly their network, get the right type and confidentiality flag, and ToOutputScript equals the payment builder script; '
                 'ToConfidential/FromConfidential preserve address, key and script; version bytes and prefixes of the networks are pairwise disjoint (vm_compute over regenerated constants); payment address methods are these encoders. '
                 'after fix e7c9f3c the former refutations are positive theorems: the other checksum constant is rejected, and every string FromBech32 (version 0/1) or FromBlech32 accepts, in either case, re-encodes to its lower-case spelling (blech32 side via C15 decode_encode: the twelve checksum symbols are determined by the rest). '
@@ -20,8 +20,8 @@ CONF = dict(
 TEXT = dict(
     text='Machine-checked proof (Coq) over an executable model of address.go and the payment address methods: for every network, script type, payload and 33-byte blinding key the address encodes, decodes back to the same payload/type/network/key, '
          'ToOutputScript equals the payment builder script, confidential<->unconfidential conversion preserves address, key and script, and network attribution is exclusive (prefix/version disjointness proved over regenerated constants). '
-         'btcutil base58check/bech32 are abstract codecs whose round-trip laws are hypotheses; blech32 is the fully modelled C15 codec (its ConvertBits regrouping round-trip enters as a stated premise). '
+         'btcutil base58check/bech32 are abstract codecs whose round-trip laws are hypotheses; blech32 is the fully modelled C15 codec, including its ConvertBits regrouping (8->5 padded, 5->8 unpadded, incomplete group must be zero), whose two round-trip laws are proved for all byte lists. '
          'Recognised segwit strings re-encode to themselves up to case and the checksum constant is bound to the witness version (both were defects found by this check and repaired by commit e7c9f3c; the model follows the fixed code).',
-    note=COMMON_NOTE + 'Hypotheses: laws of btcutil base58check/bech32/ConvertBits (ext_laws) and the regrouping round-trip of blech32.ConvertBits (regroup_law); each is exercised on the real code by the differential check.',
+    note=COMMON_NOTE + 'Hypotheses: laws of btcutil base58check/bech32/ConvertBits (ext_laws) only; each is exercised on the real code by the differential check. The statements carrying the former regroup premises are kept next to their premise-free versions (_closed).',
     technique='Coq proof over a layout model with abstract external codecs + model/implementation differential check on every exported address function + full-form oracle on the implementation',
 )
